@@ -123,7 +123,7 @@ at interpreter `p`.  A statement about `str()` of a union of ranges, the constra
 parser only. -/
 def MkListOK (E : Env) (p : Version) : Prop :=
   ∀ (c : VC) (B : List Version), (∀ e ∈ B, PyBound e = true) → (∀ x r, litV x r ∈ B → litV x (padR r) ∈ B) →
-    RegVC B c → Lit2 c → (∃ q, c.allowsPlain q = true) → ∀ nm, mkSingleOfC "python_full_version" (.ver c) = .ok nm →
+    RegVC B c → Lit2 c → (∃ q, c.allowsPlain q = true) → (∃ q, c.allowsPlain q = false) → ∀ nm, mkSingleOfC "python_full_version" (.ver c) = .ok nm →
       VerLeaf B "python_full_version" (.single nm) ∧ leafEval E (.single nm) = c.allowsPlain p
 
 /-- the conversion of a list leaf is exact at every interpreter `X.Y.Z` -/
@@ -132,7 +132,7 @@ theorem list_exact {E : Env} {X Y Z : Nat} (hE : EnvPy E X Y Z) (isIn : Bool) (p
     (hres : parseMarkerVersionConstraint (listText isIn p0 (rest.map (·.2))) = .ok res) :
     res.allowsPlain (pyV X Y Z) =
       leafEval E (.single ⟨"python_version", listOp isIn, verList2 p0 rest, false, .ver res⟩) ∧
-    ∃ q, res.allowsPlain q = true := by
+    (∃ q, res.allowsPlain q = true) ∧ ∃ q, res.allowsPlain q = false := by
   obtain ⟨s, hs1, hop⟩ := pvOperand_list hE.1 ⟨isIn, p0, rest, res, hs, hres, rfl⟩
   cases hs1
   obtain ⟨_, v, hv, hok, _, hev, _⟩ := hop
@@ -149,36 +149,40 @@ theorem list_exact {E : Env} {X Y Z : Nat} (hE : EnvPy E X Y Z) (isIn : Bool) (p
     · obtain ⟨r', h1, h2, _⟩ := parse_starList p0 (rest.map (·.2)) X' Y' Z'
       simp only [listText, if_true] at hres ⊢
       rw [hres] at h1; cases h1; exact h2
-  refine ⟨?_, ?_⟩
+  have big : ∃ N, ∀ p ∈ (p0 :: rest.map (·.2)), p.1 < N := by
+    refine ⟨((p0 :: rest.map (·.2)).map (·.1)).foldl max 0 + 1, fun p hp => ?_⟩
+    have hm : p.1 ∈ (p0 :: rest.map (·.2)).map (·.1) := List.mem_map.2 ⟨p, hp, rfl⟩
+    have gen : ∀ (l : List Nat) (a x : Nat), x ∈ l → x ≤ l.foldl max a := by
+      intro l
+      induction l with
+      | nil => intro a x hx; cases hx
+      | cons y ys ih =>
+        intro a x hx
+        simp only [List.foldl_cons]
+        rcases List.mem_cons.1 hx with rfl | hx
+        · have mono : ∀ (l : List Nat) (a : Nat), a ≤ l.foldl max a := by
+            intro l; induction l with
+            | nil => intro a; exact Nat.le_refl _
+            | cons z zs ih2 => intro a; simp only [List.foldl_cons]; exact Nat.le_trans (Nat.le_max_left _ _) (ih2 _)
+          exact Nat.le_trans (Nat.le_max_right _ _) (mono ys _)
+        · exact ih _ _ hx
+    have := gen _ 0 _ hm
+    omega
+  obtain ⟨N, hN⟩ := big
+  have hfar : (p0 :: rest.map (·.2)).any (fun p => decide (N = p.1 ∧ 0 = p.2)) = false := by
+    simp only [List.any_eq_false, decide_eq_true_eq]
+    intro p hp h
+    have := hN p hp
+    omega
+  have hnear : (p0 :: rest.map (·.2)).any (fun p => decide (p0.1 = p.1 ∧ p0.2 = p.2)) = true := by simp
+  refine ⟨?_, ?_, ?_⟩
   · rw [hev, ← allowsPlain_pad hok, key X Y Z, key X Y 0]
   · cases isIn
-    · -- an `X` beyond every listed major version
-      let N := ((p0 :: rest.map (·.2)).map (·.1)).foldl max 0 + 1
-      refine ⟨pyV N 0 0, ?_⟩
-      rw [key N 0 0]
-      simp only [Bool.false_eq_true, if_false, Bool.not_eq_true', List.any_eq_false, decide_eq_true_eq]
-      intro p hp hN
-      have : p.1 ≤ ((p0 :: rest.map (·.2)).map (·.1)).foldl max 0 := by
-        have hm : p.1 ∈ (p0 :: rest.map (·.2)).map (·.1) := List.mem_map.2 ⟨p, hp, rfl⟩
-        have gen : ∀ (l : List Nat) (a x : Nat), x ∈ l → x ≤ l.foldl max a := by
-          intro l
-          induction l with
-          | nil => intro a x hx; cases hx
-          | cons y ys ih =>
-            intro a x hx
-            simp only [List.foldl_cons]
-            rcases List.mem_cons.1 hx with rfl | hx
-            · have mono : ∀ (l : List Nat) (a : Nat), a ≤ l.foldl max a := by
-                intro l; induction l with
-                | nil => intro a; exact Nat.le_refl _
-                | cons z zs ih2 => intro a; simp only [List.foldl_cons]; exact Nat.le_trans (Nat.le_max_left _ _) (ih2 _)
-              exact Nat.le_trans (Nat.le_max_right _ _) (mono ys _)
-            · exact ih _ _ hx
-        exact gen _ 0 _ hm
-      omega
-    · refine ⟨pyV p0.1 p0.2 0, ?_⟩
-      rw [key p0.1 p0.2 0]
-      simp
+    · exact ⟨pyV N 0 0, by rw [key N 0 0, hfar]; rfl⟩
+    · exact ⟨pyV p0.1 p0.2 0, by rw [key p0.1 p0.2 0, hnear]; rfl⟩
+  · cases isIn
+    · exact ⟨pyV p0.1 p0.2 0, by rw [key p0.1 p0.2 0, hnear]; rfl⟩
+    · exact ⟨pyV N 0 0, by rw [key N 0 0, hfar]; rfl⟩
 
 /-- the pair of a two-component final release -/
 def pairOf (e : Version) : Nat × Nat := (e.release.headD 0, e.release.tail.headD 0)
@@ -209,7 +213,7 @@ theorem pairSound_pyL {E : Env} {X Y Z : Nat} (hE : EnvPy E X Y Z) (HM : MkListO
   obtain ⟨isIn, p0, rest, res, hs, hres, rfl⟩ := hv
   obtain ⟨res', B0, hres', hreg, hpb0, hlit⟩ := parse_list_reg isIn p0 (rest.map (·.2))
   rw [hres] at hres'; cases hres'
-  obtain ⟨hex, hne⟩ := list_exact hE isIn p0 rest hs hres
+  obtain ⟨hex, hne, hna⟩ := list_exact hE isIn p0 rest hs hres
   let L : List (Nat × Nat) := B0.map pairOf
   have hL : ∀ e ∈ B0, e ∈ pairB L (.single fm) := by
     intro e he
@@ -224,7 +228,7 @@ theorem pairSound_pyL {E : Env} {X Y Z : Nat} (hE : EnvPy E X Y Z) (HM : MkListO
     pfv3LeafC_verLeaf hf (fun e he => List.mem_append_right _ he)
   have C := pairCtx_genL hE _ hpb hpad ⟨"python_version", listOp isIn, verList2 p0 rest, false, .ver res⟩ fm res rfl hfn
     hvL (by rw [gpcLeaf_pvList isIn p0 rest hs, hres]) hex
-    (fun nm hnm => HM res _ hpb hpad hregB hl2 hne nm hnm) hfF hf
+    (fun nm hnm => HM res _ hpb hpad hregB hl2 hne hna nm hnm) hfF hf
   rcases hsw with ⟨rfl, rfl⟩ | ⟨rfl, rfl⟩
   · have hcall : mergeLeaves (.single ⟨"python_version", listOp isIn, verList2 p0 rest, false, .ver res⟩) (.single fm) im =
         mergePythonVersion 1 ⟨"python_version", listOp isIn, verList2 p0 rest, false, .ver res⟩ fm im := by
